@@ -150,3 +150,31 @@ package simpledb
 //@     invariant isnil(selectedPaths) || fresh(selectedPaths)
 //@     invariant fresh(selectedForCompaction) || len(selectedForCompaction) == 0
 //@     invariant forall p, k, q :: 0 <= p && p < k && k < q && q < len(selectedForCompaction) && selectedForCompaction[p] && selectedForCompaction[q] ==> selectedForCompaction[k]
+
+// ---------------------------------------------------------------------------------------------------
+// Compaction cycle (C06, C02, C11, C01).
+
+//@ func saveCompactionMetadata
+//@   props C02 C11
+//@   exit [close-error-reported] called(Writer.Close, 0) && callres(Writer.Close, 0, 0) != nil ==> err != nil
+//@   exit [write-error-reported] called(Writer.Write, 0) && callres(Writer.Write, 0, 1) != nil ==> err != nil
+
+//@ func executeCompaction
+//@   props C06 C02 C11 C01
+//@   replay compaction_cycle
+//@   requires db.sstableManager != nil && db.sstableManager.managerLock != nil
+//@   requires forall t :: 0 <= t && t < len(db.sstableManager.allSSTableReaders) ==> db.sstableManager.allSSTableReaders[t] != nil
+//@   // (a failing Close of an input reader after the flag was written returns both a result and an error; the caller checks the error first)
+//@   exit [C11:merge-error-reported] called(MergeCompact, 0) && callres(MergeCompact, 0, 0) != nil ==> err != nil
+//@   exit [C11:output-close-error-reported] (called(SSTableStreamWriter.Close, 0) && callres(SSTableStreamWriter.Close, 0, 0) != nil) ||
+//@        (called(SSTableStreamWriter.Close, 1) && callres(SSTableStreamWriter.Close, 1, 0) != nil) ==> err != nil
+//@   exit [C11,C02:result-means-flag-written] compactionMetadata != nil ==> called(saveCompactionMetadata, 0) && callres(saveCompactionMetadata, 0, 0) == nil &&
+//@        called(MergeCompact, 0) && callres(MergeCompact, 0, 0) == nil
+//@   // Close#0 is the deferred close of the error paths, Close#1 the explicit close on the success path
+//@   call 0 of saveCompactionMetadata: assert [C02,C11:output-closed-before-flag] called(SSTableStreamWriter.Close, 1) && callres(SSTableStreamWriter.Close, 1, 0) == nil
+//@   call 0 of MergeCompact: assert [C06:tombstones-dropped-only-with-oldest-table] arg2 != fn(sstables.ScanReduceLatestWinsSkipTombstones) ||
+//@        (len(db.sstableManager.allSSTableReaders) > 0 && len(paths) > 0 && paths[0] == rpath(db.sstableManager.allSSTableReaders[0]))
+//@   loop executeCompaction$2:0
+//@     invariant [merge-error-kept] called(MergeCompact, 0) && callres(MergeCompact, 0, 0) != nil ==> err != nil
+//@     invariant [close-error-kept] called(SSTableStreamWriter.Close, 1) && callres(SSTableStreamWriter.Close, 1, 0) != nil ==> err != nil
+//@     invariant [result-kept] compactionMetadata == nil || (called(saveCompactionMetadata, 0) && callres(saveCompactionMetadata, 0, 0) == nil)
